@@ -5,3 +5,7 @@
 ; functions defined in the engine's preamble, made visible to contracts:
 ; spec ispow2 (Int) Bool
 ; spec pow2f (Int) Int
+; spec hsize (Int) Int
+; output size in bytes of a hash.Hash value (by interface identity)
+(declare-fun hsize (Int) Int)
+(assert (forall ((h Int)) (! (and (>= (hsize h) 1) (<= (hsize h) 1048576)) :pattern ((hsize h)))))
